@@ -293,10 +293,14 @@ class World(EventDispatcher):
         if immediate:
             for component_type, component in tuple(
                     self._entities[entity].items()):
-                self._components[component_type].discard(entity)
+                # The index may lack the entity (even the type) already,
+                # if an earlier attempt was interrupted by a callback
+                owners = self._components.get(component_type)
+                if owners is not None:
+                    owners.discard(entity)
 
-                if not self._components[component_type]:
-                    del self._components[component_type]
+                    if not owners:
+                        del self._components[component_type]
 
                 # Event handling, code replication (see remove_component)
                 if hasattr(component, '__events__'):
@@ -332,10 +336,14 @@ class World(EventDispatcher):
             entity = self._dead_entities.pop()
 
             for component_type, component in self._entities[entity].items():
-                self._components[component_type].discard(entity)
+                # The index may lack the entity (even the type) already,
+                # if an earlier attempt was interrupted by a callback
+                owners = self._components.get(component_type)
+                if owners is not None:
+                    owners.discard(entity)
 
-                if not self._components[component_type]:
-                    del self._components[component_type]
+                    if not owners:
+                        del self._components[component_type]
 
                 # Event handling
                 if hasattr(component, '__events__'):
@@ -378,11 +386,15 @@ class World(EventDispatcher):
             subtype = fringe.pop()
 
             if subtype in self._entities.get(entity, {}):
-                self._components[subtype].discard(entity)
+                # The index may lack the entity (even the type) already,
+                # if a deletion was interrupted by a callback
+                owners = self._components.get(subtype)
+                if owners is not None:
+                    owners.discard(entity)
 
-                # Free dict entry for a component type when empty
-                if not self._components[subtype]:
-                    del self._components[subtype]
+                    # Free dict entry for a component type when empty
+                    if not owners:
+                        del self._components[subtype]
 
                 if subtype in self._entities.get(entity, {}):
                     removed = self._entities[entity][subtype]
